@@ -189,6 +189,39 @@ Theorem x_gates_mark_positions : forall (K : cring) n qs, 1 <= n -> NoDup qs -> 
 Proof. exact x_gates_mark_positions_lemma. Qed.
 Print Assumptions x_gates_mark_positions.
 
+(* ... and for circuits of "classical" gates (one entry per column of the gate's matrix: X, CNOT, SWAP, their
+   controlled versions, S, Z, CZ, permutation gates) of ANY arity on ANY duplicate-free qubit order, on registers of
+   any width: the state is a phase times the basis vector of the tuple obtained by reading the gate's qubits off the
+   tuple in the gate's order, applying the gate's map, and writing the result back to the same positions ([brun]);
+   that tuple is the outcome tuple, the distribution key, every sample in either regime, and the exact expectation of
+   c Z_S is |phase|^2 times the eigenvalue read at positions S of it.  (The wide-register correspondence cases
+   evaluate exactly this path.) *)
+Theorem classical_circuit_views : forall (K : cring) n (gs : list (cgate K)), 1 <= n -> Forall (cgate_ok n) gs ->
+  let st := brun gs (repeat false n, c1) in
+  let psi := run n (map cg_op gs) zero_state in
+  let t := fst st in
+  let j := val t in
+  vec_eq (2 ^ n) psi (sbasis (snd st) j) /\ List.length t = n /\
+  bitstring_to_tuple (outcome_key n j) = t /\
+  nth j (product_bits n) [] = t /\
+  (forall n_samples, (1 <= n_samples)%Z ->
+     run_and_measure n n_samples (repeat j (Z.to_nat n_samples)) = Some (repeat t (Z.to_nat n_samples))) /\
+  (forall (c : K) S, NoDup S -> Forall (fun q => q < n) S ->
+     expectation (2 ^ n) (den n (zterm c S)) psi = cmul (norm2 (snd st)) (eigenvalue c S t)).
+Proof. exact classical_circuit_views_lemma. Qed.
+Print Assumptions classical_circuit_views.
+
+Theorem table_gates_are_classical : forall (K : cring) n qs perm exps, qs <> [] -> NoDup qs -> Forall (fun q => q < n) qs ->
+  cgate_ok n (table_gate (K:=K) qs perm exps).
+Proof. exact table_gate_ok. Qed.
+Print Assumptions table_gates_are_classical.
+
+(* the distribution computed from measurements: every key is one of the measured tuples, position by position *)
+Theorem measured_distribution_keys : forall shots dist k p,
+  get_distribution shots = Some dist -> In (k, p) dist -> In k shots.
+Proof. exact get_distribution_keys. Qed.
+Print Assumptions measured_distribution_keys.
+
 (* the statement is not vacuous: over the Gaussian rationals, X on qubit 1 of 3 *)
 Example x_gate_instance :
   @vto_list GQring 8 (run 3 [xgate GQring 1] zero_state) = [gq0; gq0; gq1; gq0; gq0; gq0; gq0; gq0] /\
@@ -209,3 +242,12 @@ Example views_instance :
   efreq_num [0; 2] (get_counts [[true; true; false]; [false; true; false]; [true; true; false]]) = (-1)%Z /\
   zsum (map (tuple_sign [0; 2]) [[true; true; false]; [false; true; false]; [true; true; false]]) = (-1)%Z.
 Proof. repeat split; vm_compute; reflexivity. Qed.
+
+(* CNOT with control 3 and target 0, then SWAP(0, 2), on X(3)|0000>, followed on the tuple and through the code mirror *)
+Example classical_instance :
+  let gs := [table_gate (K:=GQring) [3] [1; 0] [0; 0]; table_gate [3; 0] [0; 1; 3; 2] [0; 0; 0; 0];
+             table_gate [0; 2] [0; 2; 1; 3] [0; 0; 0; 0]] in
+  fst (brun gs (repeat false 4, gq1)) = [false; false; true; true] /\
+  @vto_list GQring 16 (run 4 (map cg_op gs) zero_state)
+  = [gq0; gq0; gq0; gq1; gq0; gq0; gq0; gq0; gq0; gq0; gq0; gq0; gq0; gq0; gq0; gq0].
+Proof. split; vm_compute; reflexivity. Qed.
